@@ -82,6 +82,8 @@ def run(tier, seed):
     if not res.ok:
         v.fail_machinery("MC_Options: %s" % (res.violated or res.out[-500:]))
     names = campaign.campaign(tier) + (campaign.ENVELOPE_QUICK if tier == "quick" else campaign.ENVELOPE)
+    # valid non-default options that change what is computed for the file: the documented variable set is the same (seed C12_xy_curvature_arrays_dropped)
+    names = names + [b for _, b in (campaign.C07_PAIRS[:1] + campaign.C07_PAIRS[3:4] if tier == "quick" else campaign.C07_PAIRS)]
     traces, failed = gridprops.run(v, "C12", tier, names=names)
     # refused configurations must be explicit errors
     v.note("envelope", {n: (exc or "file") for n, exc in [(t["name"], None) for t in traces if t["name"].startswith("env_")] + [(n, e) for n, e, _ in v.notes["grids"]["refused"] if n.startswith("env_")]})
